@@ -18,7 +18,7 @@ def check(ctx):
     sharing.analyze(ctx, RULES)
     kernel.analyze(ctx, {"C12.d"})
     # 'unaffected by peeks': purity of the peek path (shared with C11)
-    cursor.analyze(ctx, {"C11.a"})
+    cursor.analyze(ctx, {"C11.a", "C10.a"})   # (C10.a: the public wrappers forward and do nothing else — no state of their own)
     # 'unaffected by set_mode on the Scanner / by earlier iterations': every new iterator works on a clone reset to mode 0
     from . import pC06
     pC06.fresh_iterator_rules(ctx)
